@@ -94,10 +94,29 @@ def baseAddCell (cfg : Cfg) (faces : List (List Nat)) (hfs : List Nat) : R (Opti
 
 /-- number of distinct vertices met by the halfedges of the given halffaces: the `std::set<VertexHandle>` guard of the
     tetrahedral / hexahedral `add_cell` overrides (64c6d58 / 7b999c9); unchecked `faces_[..]` / `edges_[..]` accesses -/
-def spanCount (edges : List (Nat × Nat)) (faces : List (List Nat)) (hfs : List Nat) : R Nat := do
+def cellEnds (edges : List (Nat × Nat)) (faces : List (List Nat)) (hfs : List Nat) : R (List (Nat × Nat)) := do
   let hes := (← hfs.mapM (hfHalfedges faces)).flatten
-  let ends ← hes.mapM (heEnds edges)
+  hes.mapM (heEnds edges)
+
+def spanCount (edges : List (Nat × Nat)) (faces : List (List Nat)) (hfs : List Nat) : R Nat := do
+  let ends ← cellEnds edges faces hfs
   pure (OVM.toSet (ends.flatMap (fun e => [e.1, e.2]))).length
+
+/-- 4614b67: no ordered vertex pair is used by two halfedges of the cell (tetrahedral override) -/
+def noParallel (edges : List (Nat × Nat)) (faces : List (List Nat)) (hfs : List Nat) : R Bool := do
+  let ends ← cellEnds edges faces hfs
+  pure (decide ends.Nodup)
+
+/-- start vertices of a halfface -/
+def hfFroms (edges : List (Nat × Nat)) (faces : List (List Nat)) (hf : Nat) : R (List Nat) := do
+  let hes ← hfHalfedges faces hf
+  let ends ← hes.mapM (heEnds edges)
+  pure (ends.map (·.1))
+
+/-- 7800c85: in the list the checked hexahedral override is about to store, the two halffaces of each axis share no vertex -/
+def oppPairsDisjoint (edges : List (Nat × Nat)) (faces : List (List Nat)) (l : List Nat) : R Bool := do
+  let vs ← l.mapM (hfFroms edges faces)
+  pure ([0, 1, 2].all (fun a => ((vs.getD (2 * a + 1) []).all (fun v => !(vs.getD (2 * a) []).contains v))))
 
 /-- `add_cell(halffaces, topology_check)` of the mesh type: the stored halfface list, or `none` when rejected -/
 def addCell (cfg : Cfg) (edges : List (Nat × Nat)) (faces : List (List Nat)) (hfs : List Nat) : R (Option (List Nat)) :=
@@ -109,6 +128,7 @@ def addCell (cfg : Cfg) (edges : List (Nat × Nat)) (faces : List (List Nat)) (h
       let fs ← hfs.mapM (fun hf => getU faces (hf / 2))
       if !fs.all (·.length == 3) then pure none
       else if (← spanCount edges faces hfs) ≠ 4 then pure none
+      else if !(← noParallel edges faces hfs) then pure none
       else baseAddCell cfg faces hfs
   | .hex =>
     if hfs.length ≠ 6 then pure none
@@ -118,9 +138,9 @@ def addCell (cfg : Cfg) (edges : List (Nat × Nat)) (faces : List (List Nat)) (h
       else if (← spanCount edges faces hfs) ≠ 8 then pure none
       else if !cfg.topoCheck then baseAddCell cfg faces hfs
       else match cfg.hexOrder faces hfs with
-        | .asIs => baseAddCell cfg faces hfs
+        | .asIs => do if (← oppPairsDisjoint edges faces hfs) then baseAddCell cfg faces hfs else pure none
         | .reject => pure none
-        | .reordered l => baseAddCell cfg faces l
+        | .reordered l => do if (← oppPairsDisjoint edges faces l) then baseAddCell cfg faces l else pure none
         | .unmodelled => .error .unmodelled
 
 /-! ### reader state -/
